@@ -32,7 +32,7 @@ type parsed = Op of op | Ops of op list | Bad of string
 let in_range s = match int_of_string_opt s with Some v -> v >= 0 && v < 6 | None -> false
 let parse_op f kind toks : parsed =
   match toks with
-  | o :: v :: rest when List.mem o ["create"; "null"; "copy"; "fromraw"; "assign"; "assignraw"; "assignval"; "reset"; "swap"; "write"; "detach"; "destroy"; "viaelem"] ->
+  | o :: v :: rest when List.mem o ["create"; "null"; "copy"; "fromraw"; "assign"; "assignraw"; "assignval"; "reset"; "swap"; "write"; "detach"; "destroy"; "viaelem"; "resize"; "reserve"] ->
     let arg = match rest with a :: _ -> a | [] -> "-" in
     let two = List.mem o ["copy"; "fromraw"; "assign"; "assignraw"; "swap"; "viaelem"] in
     if not (in_range v) then Bad "?bad-var"
@@ -58,6 +58,12 @@ let parse_op f kind toks : parsed =
           | Some m when m >= 1 && m <= 7 -> if f = FXml && kind = "text" then Bad "?unsupported" else Op (OWrite (nat v, z_of_int m))
           | _ -> Bad "?bad-contents")
       | "detach" -> if f = FXml && kind = "text" then Bad "?unsupported" else Op (ODetach (nat v))
+      | "resize" | "reserve" ->                          (* String only: resize(min(n, length)) / reserve(n) *)
+        (match int_of_string_opt arg with
+         | Some n when n >= 0 && n <= 80 ->
+           if f <> FStr then Bad "?unsupported"
+           else if o = "resize" then Op (OResize (nat v, z_of_int n)) else Op (OReserve (nat v, z_of_int n))
+         | _ -> Bad "?bad-contents")
       | _ -> Op (ODestroy (nat v))
     end
   | _ -> Bad "?unknown-op"
@@ -334,18 +340,113 @@ let seq_main mode file =
          | FPtr -> emit (Printf.sprintf "end | live=0 dtors=%d aux=ok" (int_of_nat st.screated))
          | _ -> emit "end")
 
-(* a file holds either sequential or concurrent cases (the check keeps them in separate streams) *)
+(* ---- flavour nest: handles stored inside payloads (RcNest) ------------------------------------------ *)
+let nest_nv = 4 and nest_depth = 4
+type nparsed = NOp of nop | NBad of string
+(* kind same: every assignment is the same-type operator=; kind conv: variable = member is the converting
+   operator=, member = variable goes through operator=(C* ) (matters for the as-written machine only) *)
+let nest_parse kind toks : nparsed =
+  let ints = List.map (fun s -> match int_of_string_opt s with Some v -> v | None -> 0) (match toks with _ :: r -> r | [] -> []) in
+  let a i = match List.nth_opt ints i with Some v -> v | None -> 0 in
+  let okv v = v >= 0 && v < nest_nv and okk k = k >= 0 && k <= nest_depth in
+  let n = nat_of_int in
+  match toks with
+  | [] -> NBad "?unknown-op"
+  | o :: _ ->
+    if not (List.mem o ["create"; "null"; "copy"; "assign"; "assignraw"; "reset"; "destroy"]) then NBad "?unknown-op"
+    else if not (okv (a 0)) then NBad "?bad-var"
+    else match o with
+      | "create" -> NOp (NCreate (n (a 0), z_of_int (a 1)))
+      | "null" -> NOp (NNull (n (a 0)))
+      | "destroy" -> NOp (NDestroy (n (a 0)))
+      | "copy" -> if okv (a 1) && okk (a 2) then NOp (NCopy (n (a 0), n (a 1), n (a 2))) else NBad "?bad-var"
+      | "reset" -> if okk (a 1) then NOp (NReset (n (a 0), n (a 1))) else NBad "?bad-var"
+      | _ ->
+        if not (okk (a 1) && okv (a 2) && okk (a 3)) then NBad "?bad-var" else
+        let how = if o = "assignraw" then ARaw
+          else if kind = "conv" && a 1 = 0 && a 3 > 0 then AConv
+          else if kind = "conv" && a 1 > 0 && a 3 = 0 then ARaw
+          else ASame in
+        NOp (NAssign (how, n (a 0), n (a 1), n (a 2), n (a 3)))
+
+let nfault_str = function
+  | NUaf _ -> "! uaf" | NDouble _ -> "! dblfree" | NUnderflow _ -> "! underflow" | NFuel -> "! out-of-fuel"
+
+let nest_main mode file =
+  if mode = "model" || mode = "aswritten" then begin
+    let stepf = if mode = "aswritten" then nstep_as_written else nstep in
+    let dead = ref false in
+    run_cases file (fun cfg -> dead := false; (kind_of cfg, ninit))
+      (fun (k, st) _ toks ->
+         if !dead then (k, st) else
+         match nest_parse k toks with
+         | NBad s -> emit s; (k, st)
+         | NOp o ->
+           let st1 = stepf st o in
+           let st2 = if st1.nflt = None then nobs_touch st1 else st1 in
+           (match st2.nflt with
+            | Some x -> emit (nfault_str x); dead := true
+            | None ->
+              let obs = nobs st2 in
+              let vals = List.map (function
+                  | NODead -> "D" | NOChain [] -> "-"
+                  | NOChain c -> String.concat ">" (List.map (fun ((b, v), _) -> Printf.sprintf "%d:%s" (int_of_nat b) (dec_of_z v)) c)) obs in
+              let rcs = List.map (function
+                  | NODead | NOChain [] -> "."
+                  | NOChain c -> String.concat ">" (List.map (fun (_, r) -> dec_of_z r) c)) obs in
+              emit (Printf.sprintf "%s | live=%d dtors=%d | %s" (String.concat " " vals)
+                      (int_of_nat (nlive_blocks st2)) (int_of_nat (ntotal_dtors st2)) (String.concat " " rcs)));
+           (k, st2))
+      (fun (_, st) ->
+         if not !dead then begin
+           let st' = ndestroy_all st in
+           match st'.nflt with
+           | Some x -> emit (nfault_str x)
+           | None -> emit (Printf.sprintf "end | live=%d dtors=%d" (int_of_nat (nlive_blocks st')) (int_of_nat (ntotal_dtors st')))
+         end)
+  end else
+    run_cases file (fun cfg -> (kind_of cfg, pinit))
+      (fun (k, st) _ toks ->
+         match nest_parse k toks with
+         | NBad s -> emit s; (k, st)
+         | NOp o ->
+           let st' = pstep st o in
+           let vals = List.map (function
+               | PODead -> "D" | POChain [] -> "-"
+               | POChain c -> String.concat ">" (List.map (fun (i, v) -> Printf.sprintf "%d:%s" (int_of_nat i) (dec_of_z v)) c)) (pobs st') in
+           emit (Printf.sprintf "%s | live=%d dtors=%d" (String.concat " " vals) (int_of_nat (palive_count st')) (int_of_nat (pdead_count st')));
+           (k, st'))
+      (fun (_, st) ->
+         let st' = pdestroy_all st in
+         emit (Printf.sprintf "end | live=%d dtors=%d" (int_of_nat (palive_count st')) (int_of_nat (pdead_count st'))))
+
+(* a file may mix sequential, concurrent and nest cases (the corpus does): runs of cases of the same sort are
+   handed to the matching loop in turn, so the output stays in case order *)
 let () =
   let mode = Sys.argv.(1) and file = Sys.argv.(2) in
+  let sort_of cfg = if (match cfg with "nest" :: _ -> true | _ -> false) then 2 else if is_conc cfg then 1 else 0 in
+  let run_segment sort (lines : string list) =
+    if lines <> [] then begin
+      let tmp = Filename.temp_file "rcseg" ".ops" in
+      let oc = open_out tmp in
+      List.iter (fun l -> output_string oc l; output_char oc '\n') (List.rev lines);
+      close_out oc;
+      (match sort with 2 -> nest_main mode tmp | 1 -> conc_main mode tmp | _ -> seq_main mode tmp);
+      flush stdout;
+      Sys.remove tmp
+    end in
   let ic = open_in file in
-  let conc = ref false in
+  let cur = ref [] and cur_sort = ref 0 in
   (try
      while true do
        let line = input_line ic in
-       match tokens line with
-       | "case" :: _ :: cfg -> if is_conc cfg then conc := true; Stdlib.raise Exit
-       | _ -> ()
+       (match tokens line with
+        | "case" :: _ :: cfg ->
+          let k = sort_of cfg in
+          if k <> !cur_sort then begin run_segment !cur_sort !cur; cur := []; cur_sort := k end
+        | _ -> ());
+       cur := line :: !cur
      done
-   with End_of_file | Exit -> ());
+   with End_of_file -> ());
   close_in ic;
-  if !conc then conc_main mode file else seq_main mode file
+  run_segment !cur_sort !cur
